@@ -93,4 +93,51 @@ Lemma errors_located_sites : gen_unlocated_error_sites =
    "convertDocComments: panic(""unhandled 'doc' pragma: "" + pragma)"].
 Proof. reflexivity. Qed.
 
-Definition gen_validate := validate gen_num_buckets gen_place_cases gen_kind_names gen_object_names gen_tag_names.
+(* explicit panics of the loader and of the bytecode compiler that are not located errors: the duplicate-name panic of
+   loadRuleGroup cannot be reached from a source file (irconv rejects equal-named groups, C18 pins that loop; LoadFile's model
+   in C13 assumes distinct names), quasigo.compile re-raises foreign panics, internConstant guards an internal invariant *)
+Lemma loader_panic_sites : gen_loader_panic_sites =
+  ["loadRuleGroup: panic(fmt.Sprintf(""duplicated function %s after the typecheck"", l.group.Name))";
+   "compile: panic(rv)";
+   "internConstant: panic(""compiler error: int constant interned as interface{}"")"].
+Proof. reflexivity. Qed.
+
+(* located compile errors built from an interface-typed parameter of the enclosing function (a nil one crashes in Pos()):
+   exactly the parameters that every caller passes a node of the function being compiled *)
+Lemma quasigo_errorf_params : gen_quasigo_errorf_interface_params =
+  ["compileStmt: stmt";
+   "getLocal: v";
+   "getLocal: v";
+   "compileExpr: e";
+   "compileExpr: e";
+   "compileConstantValue: source";
+   "compileConstantValue: source";
+   "compileConstantValue: source";
+   "compileConstantValue: source";
+   "compileConstantValue: source";
+   "compileConstantValue: source";
+   "errorUnsupportedType: e"].
+Proof. reflexivity. Qed.
+
+(* newBinaryExprFilter: one recursive call, under the regenerated guard, with the two operands exchanged *)
+Lemma newBinaryExprFilter_pinned : gen_body_newBinaryExprFilter =
+  ["if filter.Op == ir.FilterAndOp || filter.Op == ir.FilterOrOp { result := matchFilter{src: filter.Src} lhs, err := l.newFilter(filter.Args[0], info) if err != nil { return result, err } rhs, err := l.newFilter(filter.Args[1], info) if err != nil { return result, err } if filter.Op == ir.FilterAndOp { result.fn = makeAndFilter(lhs, rhs) } else { result.fn = makeOrFilter(lhs, rhs) } return result, nil }";
+   "if GUARD { switch filter.Args[0].Value.(type) { case string, int64: switch filter.Op { case ir.FilterEqOp, ir.FilterNeqOp: newFilter := filter newFilter.Args = []ir.FilterExpr{filter.Args[1], filter.Args[0]} return l.newBinaryExprFilter(newFilter, info) } } }";
+   "result := matchFilter{src: filter.Src}";
+   "var tok token.Token";
+   "switch filter.Op { case ir.FilterEqOp: tok = token.EQL case ir.FilterNeqOp: tok = token.NEQ case ir.FilterGtOp: tok = token.GTR case ir.FilterGtEqOp: tok = token.GEQ case ir.FilterLtOp: tok = token.LSS case ir.FilterLtEqOp: tok = token.LEQ default: return result, l.errorf(filter.Line, nil, ""unsupported operator in binary expr: %s"", result.src) }";
+   "lhs := filter.Args[0]";
+   "rhs := filter.Args[1]";
+   "for _, operand := range filter.Args { if operand.HasVar() { info.Vars[operand.Value.(string)] = struct{}{} } }";
+   "var rhsValue constant.Value";
+   "switch rhs.Op { case ir.FilterStringOp: rhsValue = constant.MakeString(rhs.Value.(string)) case ir.FilterIntOp: rhsValue = constant.MakeInt64(rhs.Value.(int64)) }";
+   "switch lhs.Op { case ir.FilterVarLineOp: if rhsValue != nil { result.fn = makeLineConstFilter(result.src, lhs.Value.(string), tok, rhsValue) } else if rhs.Op == lhs.Op { result.fn = makeLineFilter(result.src, lhs.Value.(string), tok, rhs.Value.(string)) } case ir.FilterVarTypeSizeOp: if rhsValue != nil { result.fn = makeTypeSizeConstFilter(result.src, lhs.Value.(string), tok, rhsValue) } else if rhs.Op == lhs.Op { result.fn = makeTypeSizeFilter(result.src, lhs.Value.(string), tok, rhs.Value.(string)) } case ir.FilterVarValueIntOp: if rhsValue != nil { result.fn = makeValueIntConstFilter(result.src, lhs.Value.(string), tok, rhsValue) } else if rhs.Op == lhs.Op { result.fn = makeValueIntFilter(result.src, lhs.Value.(string), tok, rhs.Value.(string)) } case ir.FilterVarTextOp: if rhsValue != nil { result.fn = makeTextConstFilter(result.src, lhs.Value.(string), tok, rhsValue) } else if rhs.Op == lhs.Op { result.fn = makeTextFilter(result.src, lhs.Value.(string), tok, rhs.Value.(string)) } }";
+   "if result.fn == nil { return result, l.errorf(filter.Line, nil, ""unsupported binary expr: %s"", result.src) }";
+   "return result, nil"].
+Proof. reflexivity. Qed.
+
+(* the regenerated guard of that recursive call: a pair of operands that is swapped is not swapped back *)
+Lemma swap_guard_flips : guard_flips gen_swap_guard.
+Proof. intros a b. destruct a, b; vm_compute; congruence. Qed.
+
+Definition gen_validate := validate gen_num_buckets gen_place_cases gen_kind_names gen_object_names gen_tag_names gen_swap_guard.
